@@ -267,7 +267,16 @@ def origin_history_cases(draw):
 
     def ops(pool, lo, hi):
         names = draw(st.lists(st.sampled_from(pool), min_size=lo, max_size=hi))
-        return [draw(_origin_op(nm, scan, det, nver)) for nm in names]
+        out = []
+        for nm in names:
+            # most shifts get integer origins first, half the fits get exactly planar measured origins
+            # first (only those are judged); the rest meet whatever state the history left behind
+            if nm == "shift" and draw(st.integers(0, 3)) != 0:
+                out.append(draw(_origin_op("set_fitted", scan, det, nver)))
+            if nm == "fit" and draw(st.booleans()):
+                out.append(draw(_origin_op("set_measured", scan, det, nver)))
+            out.append(draw(_origin_op(nm, scan, det, nver)))
+        return out
 
     steps = ops(_ORIGIN_OPS, 0, 3)
     steps.append(draw(_origin_op("measure", scan, det, nver)))
@@ -278,6 +287,16 @@ def origin_history_cases(draw):
     steps += ops(_ORIGIN_OPS, 0, 4)
     case["steps"] = steps
     return case
+
+
+def _preprocess_op(draw):
+    # forced orientation skips preprocess' own rotation/transpose estimate (not this property)
+    return {
+        "op": "preprocess",
+        "vectorized": draw(st.booleans()),
+        "fit": draw(st.sampled_from(["plane", "constant"])),
+        "force_orientation": draw(st.integers(0, 3)) != 0,
+    }
 
 
 @st.composite
@@ -300,7 +319,7 @@ def dataset_history_cases(draw):
                 }
             )
         elif nm == "preprocess":
-            steps.append({"op": nm, "vectorized": draw(st.booleans()), "fit": draw(st.sampled_from(["plane", "constant"]))})
+            steps.append(_preprocess_op(draw))
         elif nm == "set_intensities":
             steps.append({"op": nm, "version": draw(st.integers(0, nver - 1))})
         else:
@@ -308,7 +327,7 @@ def dataset_history_cases(draw):
     # every history ends by measuring whatever is stored now, through one of the two entry points
     steps.append({"op": "set_intensities", "version": draw(st.integers(0, nver - 1))})
     if draw(st.booleans()):
-        steps.append({"op": "preprocess", "vectorized": draw(st.booleans()), "fit": draw(st.sampled_from(["plane", "constant"]))})
+        steps.append(_preprocess_op(draw))
     else:
         steps.append({"op": "com", "src": "attr", "vectorized": draw(st.booleans()), "fit": draw(st.sampled_from(["plane", "constant"])), "mask": _mask_desc(draw)})
     case["steps"] = steps
